@@ -290,7 +290,7 @@ impl GarnishNumber for SimpleNumber {
                 }
 
                 let f = v1.powf(v2);
-                if f.is_infinite() {
+                if !f.is_finite() {
                     return None;
                 } else {
                     Float(f)
@@ -302,7 +302,7 @@ impl GarnishNumber for SimpleNumber {
                 }
 
                 let f = f64::from(v1).powf(v2);
-                if f.is_infinite() {
+                if !f.is_finite() {
                     return None;
                 } else {
                     Float(f)
@@ -314,7 +314,7 @@ impl GarnishNumber for SimpleNumber {
                 }
 
                 let f = v1.powf(f64::from(v2));
-                if f.is_infinite() {
+                if !f.is_finite() {
                     return None;
                 } else {
                     Float(f)
